@@ -14,7 +14,7 @@ PROPS = {
     "C01": {
         # a design built through a reconnection history or with adversarial names and then
         # exported with the wrong connectivity is a C01 violation as well
-        "workloads": [("conn", "c01", 7000, 120000, None), ("conn", "c04", 2000, 30000, None, ("C04",)), ("conn", "c05", 2000, 30000, None, ("C05",)), ("hist", "c08", 600, 8000, None, ("C08",))],
+        "workloads": [("conn", "c01", 7000, 120000, None), ("conn", "c04", 2000, 30000, None, ("C04",)), ("conn", "c05", 2000, 30000, None, ("C05",)), ("hist", "c08", 1000, 12000, None, ("C08",))],
         "rule": (
             "one case = a generated valid design program (model-guided generator, swarm configuration per run) "
             "executed under a drawn SimSet policy and, in half the runs, after a drawn history prefix; "
